@@ -90,8 +90,20 @@ class GuardedHTML(HTML):
         return ob[index]
 
 
+class RefusingHTML(GuardedHTML):
+    """Guards that refuse some elements (tree nodes whose id starts with 'cb', rows whose c ends in '-1'):
+    what skip_unauthorized removes must be removed from the engine's own copy, not from the caller's list."""
+
+    def guarded_getitem(self, ob, index):
+        from zExceptions import Unauthorized
+        v = ob[index]
+        if str(getattr(v, 'id', '')).startswith('cb') or str(getattr(v, 'c', '')).endswith('-1'):
+            raise Unauthorized('refused element %r' % (index,))
+        return v
+
+
 CLASSES = {'HTML': HTML, 'String': String, 'HTMLFile': HTMLFile, 'File': File,
-           'GuardedHTML': GuardedHTML}
+           'GuardedHTML': GuardedHTML, 'RefusingHTML': RefusingHTML}
 TEMPLATE_CLASS_MODULES = ('DocumentTemplate.DT_HTML', 'DocumentTemplate.DT_String')
 
 ABSENT = object()
@@ -506,6 +518,11 @@ _T = [
      '<dtml-var "x or other">|<dtml-if "z and opt">ZO<dtml-else>nzo</dtml-if>',
      '<dtml-let v="nul or opt"><dtml-var v missing=none null=nil></dtml-let>',
      ['x', 'z', 'nul', 'other', 'opt'], None, 0),
+    ('skip_unauthorized', 'RefusingHTML',
+     '<dtml-tree rootown skip_unauthorized><dtml-var id></dtml-tree>|<dtml-in objs skip_unauthorized><dtml-var c>,</dtml-in>',
+     '<dtml-tree rootown skip_unauthorized sort=id reverse><dtml-var id></dtml-tree>|<dtml-in objs skip_unauthorized size=3 start=st><dtml-var c>,</dtml-in>'
+     '<dtml-in tup skip_unauthorized reverse><dtml-var c>.</dtml-in>',
+     ['rootown', 'objs', 'tup', 'st', 'URL', 'RESPONSE', 'tree-e', 'expand_all'], None, 0),
     ('guarded_expr', 'GuardedHTML', '<dtml-var "obj.name"> <dtml-var "x + 1"><dtml-in objs sort_expr="k"><dtml-var "c"> </dtml-in><dtml-if "x > 2">big</dtml-if>',
      '<dtml-let v="obj.age + x"><dtml-var v></dtml-let><dtml-with "obj.inner"><dtml-var name></dtml-with>',
      ['obj', 'x', 'objs', 'k'], None, 0),
